@@ -331,6 +331,11 @@ OUTCOMES = {
     'fail_late': (['>>> mark("{id}")', '>>> print("a")', 'a', '>>> print("c")', 'd'], 'failed', True),
     'all_skipped': (['>>> # xdoctest: +SKIP', '>>> mark("{id}")'], 'skipped', False),
     'all_skipped_req': (['>>> # xdoctest: +REQUIRES(module:xv_nx_mod_zz)', '>>> mark("{id}")', 'BOGUS'], 'skipped', False),
+    # opens with a block +SKIP that is switched off again further down: the rest runs
+    'skip_then_unskip': (['>>> # xdoctest: +SKIP', '>>> print("never")', 'BOGUS', '>>> # xdoctest: -SKIP', '>>> mark("{id}")',
+                          '>>> print("a")', 'a'], 'passed', True),
+    'skip_then_inline_unskip': (['>>> # doctest: +SKIP', '>>> print("never")', '>>> mark("{id}")  # xdoctest: -SKIP',
+                                 '>>> print("still skipped")', 'BOGUS'], 'passed', True),
     'partly_skipped': (['>>> mark("{id}")', '>>> print("a")  # xdoctest: +SKIP', 'zzz', '>>> print("b")', 'b'], 'passed', True),
     'expected_exc': (['>>> mark("{id}")', '>>> raise ValueError("v")', 'Traceback (most recent call last):',
                       'ValueError: v'], 'passed', True),
